@@ -79,6 +79,19 @@ pub const OPS: &[(&str, usize)] = &[
 
 /// Operations (and argument shapes) whose undo is a recorded known finding. The generator does not emit
 /// them, so that no seed can stumble over a pinned defect; their witnesses are replayed on every run.
+/// Does the history contain one of the triggers the generator keeps away from (see QUARANTINED_OPS and the two
+/// quarantined argument values)? A pinned C08 class only covers histories that do.
+pub fn has_quarantined_trigger(t: &Trace) -> bool {
+    t.events.iter().any(|ev| match ev {
+        Ev::Op { name, args, .. } => {
+            QUARANTINED_OPS.contains(&name.as_str())
+                || (name == "update_layer_properties" && args.get(1).copied().unwrap_or(0) & 16 != 0)
+                || (name == "update_sauce_data" && args.first().copied().unwrap_or(0) >= 7)
+        }
+        _ => false,
+    })
+}
+
 pub const QUARANTINED_OPS: &[&str] = &["set_layer_size", "clear_layer", "scroll_area_up", "scroll_area_down", "scroll_area_left", "scroll_area_right", "center", "stamp_layer_down"];
 
 /// state that steers the operations; not edits
